@@ -27,7 +27,7 @@ def gen_items(rng, big=False):
         if rng.random() < 0.15:
             items.append(("eos",))
             continue
-        name = D.gen_disk_name(rng, used)
+        name = D.gen_disk_name(rng, used, dashed=True)
         size = rng.choice(D.DISK_SIZES + [rng.randint(0, 6000)])
         if big and rng.random() < 0.5:
             size = rng.choice([312000, 320280, 320281, 318240, 330000, 160000, 2040 * 79])
